@@ -249,4 +249,23 @@ def check_case(case):
                 if res["log2"].values[i] != v:
                     bad("log2-unchanged", f"log2 {v!r} became {res['log2'].values[i]!r} without purity")
                     break
+    # ---- command-line tier (a quarter of the cases): `cnvkit.py call` on the written table = do_call on the same file,
+    # with the sample sex given on the command line
+    from vk import gen
+
+    if gen.pick(case, "cli", 4) == 0 and not out:
+        import shutil
+        import tempfile
+
+        from vk import cli
+
+        d = tempfile.mkdtemp(prefix="vk01.")
+        try:
+            method = "clonal" if case["kind"] != "nonneg" else case["method"]
+            diff = cli.call_diff(cnarr, d, method, ploidy, purity, male_ref, female, par,
+                                 ["cn"] if case.get("filter_cn") else None, None)
+            if diff:
+                bad("cli:call", diff)
+        finally:
+            shutil.rmtree(d, ignore_errors=True)
     return out
